@@ -101,6 +101,9 @@ func init() {
 			if gen.Chance(t, "multiline.nonascii", 60) {
 				// non-ASCII text inside the constructs (an excerpt of the source is printed with errors)
 				seps = []string{" ", " // é €€ 日本\n", " ", "\n  ", " /* ü🙂 */ ", "\n", " "}
+			} else if gen.Chance(t, "multiline.cr", 50) {
+				// line ends of every kind, a line comment ended by a lone CR (the grammar's NEWLINE is [\r\n]+)
+				seps = []string{" ", "\r\n", " // c\r", "\n", " ", "\r", " // d\r\n"}
 			}
 			c.Text = gen.Print(ec.Script.Clone(), &gen.ListLayout{Seps: seps}).Text
 			c.Note = "multi-line"
